@@ -105,8 +105,14 @@ pub fn cat_args(dir: &Path, rq: &Value, nth: u64, sse_out: bool) -> Vec<String> 
     a
 }
 
-pub fn exec(bin: &str, dir: &Path, op: &str, rq: &Value, nth: u64) -> Option<Value> {
-    let d = dir.to_string_lossy().to_string();
+/// `tcp`: the server also listens there (":PORT"); the tool is then given that address for most calls, the store
+/// directory (unix socket, and for `xs cas` the content files themselves) for the rest
+pub fn exec(bin: &str, dir: &Path, tcp: Option<&str>, op: &str, rq: &Value, nth: u64) -> Option<Value> {
+    let d = match tcp {
+        Some(a) if nth % 4 != 3 => a.to_string(),
+        _ => dir.to_string_lossy().to_string(),
+    };
+    let dir: &Path = Path::new(&d);
     // an argument cannot carry a NUL byte
     if rq["topic"].as_str().map(|t| t.contains('\0')).unwrap_or(false) {
         return None;
